@@ -706,8 +706,9 @@ def replace(eq: str, term: str, replacement: str, rhs_only: tp.Optional[bool] = 
         The updated equation.
     """
 
-    # define follow-up operations/signs that are allowed to follow directly after term in eq
-    allowed_follow_ops = '-+=*/^<>=!.%@[]():, '
+    # define follow-up operations/signs that are allowed to follow directly after term in eq (incl. the derivative
+    # mark of primed left-hand sides: the x of `x' = -x/tau` is an occurrence of x)
+    allowed_follow_ops = "-+=*/^<>=!.%@[]():, '"
 
     # replace every proper appearance of term in eq with replacement
     ################################################################
